@@ -292,12 +292,17 @@ def _array(ip, x, *a, **k):
     d = k.get("dtype", a[0] if a else None)
     if d is None:
         return x
+    if is_z3(x) and x.sort() == U and not (is_z3(d) and d.sort() == U):
+        from .core import LibRef
+        nm = d.dotted if isinstance(d, LibRef) else d if isinstance(d, str) else None
+        if nm is not None:  # a CONCRETE dtype (jnp.uint8, "int32", ...) applied to an array of unknown dtype: a named dtype constant
+            d = z3.Const("dtype:" + nm.split(".")[-1], U)
     if is_z3(x) and x.sort() == U and is_z3(d) and d.sort() == U:
-        # a cast is the identity when the value already has that dtype; otherwise some other array (truncation, rounding, widening)
+        # a cast is the identity when the value already has that dtype; otherwise some other array (truncation, rounding, widening, wrap-around)
         r = CAST(x, d)
         ip.ctx.assume(z3.Implies(d == DTYPE_OF(x), r == x))
         return r
-    return x  # python scalars / concrete dtypes: value-preserving conversion (A-REAL)
+    return x  # python scalars: value-preserving conversion (A-REAL)
 
 
 @model("jax.numpy.promote_types", "numpy.promote_types")
@@ -386,6 +391,30 @@ def _jargmin(ip, x, *a, **k):
         ip.ctx.notes.append("jnp.argmin over a window is the uninterpreted argminwin(array, start, size) in [0, size)")
         return r
     raise Unsupported("jnp.argmin")
+
+
+@model("jax.numpy.array_equal", "numpy.array_equal")
+def _array_equal(ip, a, b, equal_nan=False):
+    """True iff the two arrays have the same shape and entries: for opaque arrays, equality of the terms (either answer possible unless implied)"""
+    if is_z3(a) and is_z3(b) and a.sort() == b.sort():
+        return a == b
+    if not is_z3(a) and not is_z3(b) and isinstance(a, (int, float, bool)) and isinstance(b, (int, float, bool)):
+        return a == b
+    raise Unsupported("array_equal")
+
+
+@model("jax.numpy.isclose", "numpy.isclose")
+def _isclose(ip, a, b, rtol=1e-05, atol=1e-08, equal_nan=False):
+    """numpy semantics: |a - b| <= atol + rtol * |b|, or a == b (equal infinities); NaN is close to nothing (equal_nan=False)"""
+    if equal_nan:
+        raise Unsupported("isclose(equal_nan=True)")
+    diff = _jabs(ip, ip.binop("Sub", a, b))
+    bound = ip.binop("Add", atol, ip.binop("Mult", rtol, _jabs(ip, b)))
+    le, eq = ip.compare("LtE", diff, bound), ip.compare("Eq", a, b)
+    if isinstance(le, bool) and isinstance(eq, bool):
+        return le or eq
+    tz = lambda v: z3.BoolVal(v) if isinstance(v, bool) else v  # noqa: E731
+    return z3.Or(tz(le), tz(eq))
 
 
 @model("jax.numpy.abs", "numpy.abs")
